@@ -365,5 +365,262 @@ Proof.
   apply upper_all_true. intros keys. apply level_zone_ok_double. exact Hf.
 Qed.
 
-Print Assumptions float_ok_of_exact.
-Print Assumptions float_ok_double.
+
+(* ---- float slopes: evaluations at keys inside the x-range of the responsible block ---- *)
+Lemma EvL_suffix c (P : cseg -> list (Z * Z) -> Prop) (E : cseg -> segment -> list segment -> Prop)
+      (G : list (list (Z * Z))) :
+  (forall cs b s c2 g2 n2 g1, G = g1 ++ b :: g2 -> P cs b -> seg_of c cs s ->
+     Forall2 P c2 g2 -> Forall2 (seg_of c) c2 n2 -> E cs s n2) ->
+  forall css g new pre, G = pre ++ g -> Forall2 P css g -> Forall2 (seg_of c) css new -> EvL E css new.
+Proof.
+  intros HE. induction css as [|cs css IH]; intros g new pre EG H1 H2;
+    inversion H1 as [|cs0 b css0 g' Hcb H1' E1 E2]; inversion H2 as [|cs1 s css1 new' Hcs H2' E3 E4]; subst; [exact I|].
+  cbn [EvL]. split.
+  - exact (HE cs b s css g' new' pre eq_refl Hcb Hcs H1' H2').
+  - apply (IH g' new' (pre ++ [b])); [rewrite <- app_assoc; reflexivity | exact H1' | exact H2'].
+Qed.
+
+(* a point of the level whose x lies in the key range of a segment belongs to that segment's block *)
+Lemma point_in_block (g1 g2 : list (list (Z * Z))) b p :
+  incr (concat (g1 ++ b :: g2)) -> b <> [] -> In p (concat (g1 ++ b :: g2)) ->
+  fst (hd (0, 0) b) <= fst p ->
+  match g2 with b' :: _ => b' <> [] /\ fst p < fst (hd (0, 0) b') | [] => True end ->
+  In p b.
+Proof.
+  intros Hi Hb Hp Hlo Hhi. rewrite concat_app in Hi, Hp. cbn [concat] in Hi, Hp.
+  apply incr_app in Hi. destruct Hi as (_ & Hi2 & H12).
+  apply in_app_or in Hp. destruct Hp as [Hp|Hp].
+  - assert (Hh : In (hd (0, 0) b) (b ++ concat g2)) by (apply in_or_app; left; apply hd_In_ne; exact Hb).
+    destruct (H12 _ _ Hp Hh). lia.
+  - apply in_app_or in Hp. destruct Hp as [Hp|Hp]; [exact Hp|].
+    destruct g2 as [|b' g2']; [contradiction|]. destruct Hhi as [Hb' Hlt].
+    apply incr_app in Hi2. destruct Hi2 as (_ & Hi3 & _). cbn [concat] in Hi3, Hp.
+    destruct b' as [|a t]; [contradiction|]. cbn [hd app] in *.
+    destruct (incr_hd_min a _ p Hi3 Hp). lia.
+Qed.
+
+Definition fthr (c : cfg) : Z := if c_fdouble c then 2 ^ 50 else 2 ^ 22.
+
+Lemma close_at_small eps dx dy first icpt x y T :
+  0 < dx -> 0 <= icpt -> close_at eps dx dy first icpt (x, y) -> y + eps + 1 <= T ->
+  dy * (x - first) < T * dx.
+Proof. unfold close_at. cbn [fst snd]. intros Hdx Hi Hc HT. nia. Qed.
+
+(* one level, a key that is the x of a fed point: the exact position is at most rank + eps + 1/2 *)
+Lemma level_zone_at_fed c eps keys k :
+  1 <= kbits (c_kt c) -> 1 <= c_par c -> keys <> [] -> sortedb keys = true -> Forall (key_ok (c_kt c)) keys ->
+  zlen keys + eps < 2 ^ 64 - 1 ->
+  (exists y, In (k, y) (fed_spec (c_kt c) keys)) -> zlen keys + eps + 1 <= fthr c ->
+  level_zone_ok c eps keys k.
+Proof.
+  intros Hb Hpar Hne Hs Hk Hn [y Hy] HT css fed cnt new M1 M2.
+  pose proof (key_ok_nowrap _ _ Hb Hk) as Hw.
+  destruct (level_blocks_full _ _ _ _ _ _ _ _ M1 Hb Hpar Hne Hs Hk Hn) as (g & Hcat & He & _ & F).
+  pose proof (map_res_Forall2 _ _ _ M2) as F2.
+  refine (EvL_suffix c _ (ZoneOK c k) g _ css g new [] eq_refl F F2).
+  intros cs b s c2 g2 n2 g1 EG (R1 & R2 & R3) Hso FP FS Hdx Hdy Hk1 Hk2 Hsent. left. fold (fthr c).
+  destruct (line_ok_close c eps cs b s R2 Hso) as (_ & _ & Ekey & Hcl). fold (slope_of cs) in Hcl.
+  destruct (seg_of_cseg_spec c cs s Hso) as (_ & _ & Hicpt).
+  assert (Hbne : b <> []) by (destruct R2; assumption).
+  assert (Hin : In (k, y) b).
+  { apply (point_in_block g1 g2 b (k, y)); [| exact Hbne | | cbn [fst]; lia |].
+    - rewrite <- EG, Hcat. apply fed_spec_incr; assumption.
+    - rewrite <- EG, Hcat. exact Hy.
+    - destruct g2 as [|b' g2']; [exact I|]. inversion FP as [|cs' b0 c2' g0 (_ & R2' & _) _ E1 E2]; subst.
+      inversion FS as [|cs0 s' c20 n2' Hso' _ E3 E4]; subst.
+      destruct (line_ok_close c eps cs' b' s' R2' Hso') as (_ & _ & Ekey' & _).
+      split; [destruct R2'; assumption|]. cbn [fst]. rewrite <- Ekey'. exact Hk2. }
+  rewrite Forall_forall in Hcl. pose proof (Hcl _ Hin) as Hc.
+  assert (Hyr : y <= zlen keys).
+  { apply (spec_only (c_kt c) keys Hne Hs Hw) in Hy. pose proof (fed_kind_rank keys _ Hy) as Hr. cbn [snd] in Hr. lia. }
+  apply (close_at_small eps _ _ (sg_key s) (sg_icpt s) k y); [exact Hdx | lia | exact Hc | lia].
+Qed.
+
+Lemma upper_all_eps0 c ldk (L : list Z -> Prop) : c_epsrec c = 0 ->
+  forall fuel segs offs ln, upper_all L c fuel ldk segs offs ln.
+Proof. intros E fuel segs offs ln. destruct fuel; cbn [upper_all]; rewrite E; exact I. Qed.
+
+Lemma data_key_fed c data k : 1 <= kbits (c_kt c) -> data <> [] -> sortedb data = true ->
+  Forall (key_ok (c_kt c)) data -> In k data -> exists y, In (k, y) (fed_spec (c_kt c) data).
+Proof.
+  intros Hb Hne Hs Hk Hin. pose proof (key_ok_nowrap _ _ Hb Hk) as Hw.
+  destruct (present_at_r data Hs k Hin) as [Hr Ek].
+  destruct (claimB (c_kt c) data Hne Hs Hw k Hr) as [HB _]. rewrite Ek in HB. eexists. exact HB.
+Qed.
+
+(* the bottom level is discharged for keys of the data when n + eps + 1 <= 2^22 (float) / 2^50 (double);
+   the upper levels keep their integer zone condition *)
+Theorem float_ok_bottom_small c data k :
+  std_width c -> 1 <= c_par c <= 20 -> 0 <= c_epsrec c ->
+  data <> [] -> sortedb data = true -> Forall (fun x => in_ktype (c_kt c) x = true) data ->
+  last_z data < sentinel c -> zlen data + c_eps c < 2 ^ 64 - 1 -> zlen data + c_epsrec c + 4 < 2 ^ 64 - 1 ->
+  zlen data + c_eps c + 1 <= fthr c -> In k data ->
+  uppers_ok (fun keys => level_zone_ok c (c_epsrec c) keys k) c data -> float_ok c data k.
+Proof.
+  intros W Hpar He0 Hne Hs Hkt Hlast Hn64 Hf64 Hsmall Hin HU.
+  destruct (std_width_bits c W) as [Hb _]. pose proof (data_key_ok c data Hs Hkt Hlast) as Hko.
+  apply float_ok_of_exact; try assumption. split; [|exact HU].
+  apply level_zone_at_fed; try assumption; [lia|]. apply data_key_fed; assumption.
+Qed.
+
+(* EpsilonRecursive = 0: float_ok at every key of the data, for n + eps + 1 <= 2^22 (float slopes) *)
+Theorem float_ok_of_small_partial c data k :
+  std_width c -> 1 <= c_par c <= 20 -> c_epsrec c = 0 -> 0 <= c_eps c ->
+  data <> [] -> sortedb data = true -> Forall (fun x => in_ktype (c_kt c) x = true) data ->
+  last_z data < sentinel c -> zlen data + c_eps c + 1 <= fthr c ->
+  In k data -> float_ok c data k.
+Proof.
+  intros W Hpar He0 Heps Hne Hs Hkt Hlast Hsmall Hin.
+  assert (HT : fthr c <= 2 ^ 50) by (unfold fthr; destruct (c_fdouble c); lia).
+  pose proof (zlen_ge0 data).
+  apply float_ok_bottom_small; try assumption; try lia.
+  unfold uppers_ok.
+  match goal with |- match ?e with _ => _ end => destruct e as [[segs ln]|e1] end; [|exact I].
+  apply upper_all_eps0. exact He0.
+Qed.
+
+(* ---- float slopes over a small key universe: (n + 2*eps) * (sentinel - first key) < 2^22 ---- *)
+Lemma band_lo_ge eps y : band_lo eps y >= y - eps \/ band_lo eps y = 0.
+Proof. unfold band_lo, band, y_size_t. cbn [fst snd ymin ymax]. destruct (y <=? 0 + eps); lia. Qed.
+
+Lemma fed_x_ge_hd kt keys p : keys <> [] -> sortedb keys = true -> nowrap kt keys ->
+  In p (fed_spec kt keys) -> hd 0 keys <= fst p.
+Proof.
+  intros Hne Hs Hw Hp. apply (spec_only kt keys Hne Hs Hw) in Hp.
+  pose proof (n_pos kt keys Hne Hs Hw) as Hn1. rewrite <- (dat0 kt keys Hne Hs Hw).
+  destruct Hp as [[[Hi _] ->]|[[(A & B & _) ->]|[-> _]]].
+  - pose proof (sorted_dat_mono keys 0 (snd p) Hs ltac:(lia) ltac:(lia)). lia.
+  - pose proof (sorted_dat_mono keys 0 (snd p) Hs ltac:(lia) ltac:(lia)). lia.
+  - rewrite (last_is keys Hne). pose proof (sorted_dat_mono keys 0 (zlen keys - 1) Hs ltac:(lia) ltac:(lia)). lia.
+Qed.
+
+(* dy of the exact slope: at most (largest rank of the block) + 2*eps *)
+Lemma slope_dy_le eps cs b m :
+  0 <= eps -> 0 <= m -> seg_rel2 eps cs b -> (forall p, In p b -> 0 <= snd p <= m) -> m + eps < 2 ^ 64 - 1 ->
+  snd (slope_of cs) <= m + 2 * eps.
+Proof.
+  intros He Hm0 [_ H2] Hr Hm. destruct (one_point cs) eqn:Hop.
+  - rewrite (slope_of_one_point cs Hop). cbn [snd]. lia.
+  - rewrite (slope_of_two_points cs Hop).
+    destruct (H2 eq_refl) as ((y1 & In1 & E1) & (y3 & In3 & E3) & Hx).
+    pose proof (Hr _ In1) as R1. pose proof (Hr _ In3) as R3. cbn [snd] in R1, R3.
+    destruct (band_range eps y3 He ltac:(lia) ltac:(lia)) as [_ L3].
+    unfold psub. cbn [fst snd]. rewrite E1, E3, L3. destruct (band_lo_ge eps y1); lia.
+Qed.
+
+Lemma level_zone_small_span c eps keys k :
+  1 <= kbits (c_kt c) -> 1 <= c_par c -> keys <> [] -> sortedb keys = true -> Forall (key_ok (c_kt c)) keys ->
+  zlen keys + eps < 2 ^ 64 - 1 ->
+  (zlen keys + 2 * eps) * (sentinel c - hd 0 keys) < fthr c ->
+  level_zone_ok c eps keys k.
+Proof.
+  intros Hb Hpar Hne Hs Hk Hn HT css fed cnt new M1 M2.
+  pose proof (key_ok_nowrap _ _ Hb Hk) as Hw.
+  destruct (level_blocks_full _ _ _ _ _ _ _ _ M1 Hb Hpar Hne Hs Hk Hn) as (g & Hcat & He & _ & F).
+  pose proof (map_res_Forall2 _ _ _ M2) as F2.
+  refine (EvL_suffix c _ (ZoneOK c k) g _ css g new [] eq_refl F F2).
+  intros cs b s c2 g2 n2 g1 EG (R1 & R2 & R3) Hso _ _ Hdx Hdy Hk1 _ Hsent. left. fold (fthr c).
+  destruct (line_ok_close c eps cs b s R2 Hso) as (_ & _ & Ekey & _).
+  assert (Hbne : b <> []) by (destruct R2; assumption).
+  assert (Hfed : forall p, In p b -> In p (fed_spec (c_kt c) keys)).
+  { intros p Hp. rewrite <- Hcat, EG. apply in_concat. exists b. split; [apply in_or_app; right; left; reflexivity | exact Hp]. }
+  pose proof (zlen_ge0 keys) as Hm0.
+  assert (Hdyle : snd (slope_of cs) <= zlen keys + 2 * eps).
+  { apply (slope_dy_le eps cs b (zlen keys) He Hm0 R1); [|lia].
+    intros p Hp. apply Hfed in Hp. apply (spec_only (c_kt c) keys Hne Hs Hw) in Hp. exact (fed_kind_rank keys p Hp). }
+  pose proof (fed_x_ge_hd (c_kt c) keys _ Hne Hs Hw (Hfed _ (hd_In_ne b Hbne))) as Hx0. rewrite <- Ekey in Hx0.
+  set (dy := snd (slope_of cs)) in *. set (dx := fst (slope_of cs)) in *.
+  assert (H1 : dy * (k - sg_key s) <= (zlen keys + 2 * eps) * (sentinel c - hd 0 keys)).
+  { apply Z.mul_le_mono_nonneg; lia. }
+  assert (H2 : fthr c * 1 <= fthr c * dx) by (apply Z.mul_le_mono_nonneg_l; [unfold fthr; destruct (c_fdouble c)|]; lia).
+  lia.
+Qed.
+
+Theorem float_ok_of_small_span c data k :
+  std_width c -> 1 <= c_par c <= 20 -> 0 <= c_epsrec c -> 0 <= c_eps c ->
+  data <> [] -> sortedb data = true -> Forall (fun x => in_ktype (c_kt c) x = true) data ->
+  last_z data < sentinel c ->
+  (zlen data + 2 * c_eps c) * (sentinel c - hd 0 data) < fthr c ->
+  (zlen data + 1 + 2 * c_epsrec c) * (sentinel c - hd 0 data) < fthr c ->
+  float_ok c data k.
+Proof.
+  intros W Hpar He0 Heps Hne Hs Hkt Hlast HT0 HT1.
+  destruct (std_width_bits c W) as [Hb _].
+  pose proof (data_key_ok c data Hs Hkt Hlast) as Hko.
+  pose proof (last_z_key_ok c data Hne Hkt Hlast) as Hldk.
+  assert (HT : fthr c <= 2 ^ 50) by (unfold fthr; destruct (c_fdouble c); lia).
+  pose proof (zlen_ge0 data) as Hn0.
+  assert (Hsp : 1 <= sentinel c - hd 0 data).
+  { assert (hd 0 data <= last_z data); [|lia]. apply (sorted_le_last data _ 0 Hs).
+    destruct data; [contradiction | left; reflexivity]. }
+  assert (Hn1 : zlen data + 2 * c_eps c < fthr c) by nia.
+  assert (Hn2 : zlen data + 1 + 2 * c_epsrec c < fthr c) by nia.
+  apply (float_ok_gen c data k (fun _ => True)); try assumption; try lia.
+  - apply level_float_ok_of_zone; try assumption; try lia.
+    apply level_zone_small_span; try assumption; lia.
+  - intros keys Hkne Hss Hkko Hhd Hlen _. pose proof (ssortedb_sorted _ Hss) as Hks.
+    apply level_float_ok_of_zone; try assumption; try lia.
+    apply level_zone_small_span; try assumption; try lia.
+    rewrite Hhd. pose proof (zlen_ge0 keys). nia.
+  - unfold uppers_ok.
+    match goal with |- match ?e with _ => _ end => destruct e as [[segs ln]|e1] end; [|exact I].
+    apply upper_all_true. intros; exact I.
+Qed.
+
+(* ---- why "n small" alone cannot give float_ok for float slopes: a counterexample ----
+   6 keys, Epsilon = 1, EpsilonRecursive = 0, float slopes: the first segment covers 0,3,6,9,12 with
+   exact slope 5/12; the query key 3*2^30 (absent, between 12 and 2^40, so still in that segment's key
+   range) has exact position 1342177280 while the float computation gives 1342177248: neither
+   disjunct of eval_ok holds.  (The index is still correct there: the position is capped by the next
+   segment's intercept; `eval_ok` is simply not an invariant of such evaluations.) *)
+Definition cx_c : cfg := mkCfg (mkK 64 false) 1 0 false 1 false.
+Definition cx_data : list Z := [0; 3; 6; 9; 12; 2 ^ 40].
+Definition cx_k : Z := 3 * 2 ^ 30.
+Definition cx_css : list cseg :=
+  [mkCseg (0, 1) (0, 0) (12, 3) (12, 5) 0;
+   mkCseg (2 ^ 40, 6) (2 ^ 40, 4) (2 ^ 40 + 1, 5) (2 ^ 40 + 1, 7) (2 ^ 40)].
+Definition cx_fed : list (Z * Z) := [(0, 0); (3, 1); (6, 2); (9, 3); (12, 4); (2 ^ 40, 5); (2 ^ 40 + 1, 6)].
+Definition cx_new : list segment :=
+  match map_res (segment_of_cseg cx_c) cx_css with Ok new => new | Err _ => [] end.
+
+Lemma cx_M1 : make_segmentation_par (c_kt cx_c) par_threshold (c_par cx_c) (zlen cx_data) (c_eps cx_c) cx_data
+              = Ok (cx_css, cx_fed, 2).
+Proof. vm_compute. reflexivity. Qed.
+Lemma cx_M2_ok : match map_res (segment_of_cseg cx_c) cx_css with Ok _ => true | Err _ => false end = true.
+Proof. vm_compute. reflexivity. Qed.
+Lemma cx_M2 : map_res (segment_of_cseg cx_c) cx_css = Ok cx_new.
+Proof.
+  pose proof cx_M2_ok as H. unfold cx_new. destruct (map_res (segment_of_cseg cx_c) cx_css); [reflexivity | discriminate H].
+Qed.
+Lemma cx_facts :
+  match cx_new with
+  | [s1; s2] => (sg_key s1 =? 0) && (sg_icpt s1 =? 0) && (seg_eval cx_c s1 cx_k =? 1342177248) && (sg_key s2 =? 2 ^ 40)
+  | _ => false
+  end = true.
+Proof. vm_compute. reflexivity. Qed.
+
+Theorem cx_not_float_ok : ~ float_ok cx_c cx_data cx_k.
+Proof.
+  intros [H0 _]. destruct (H0 cx_css cx_fed 2 cx_new cx_M1 cx_M2) as [HE _]. clear H0.
+  pose proof cx_facts as HF. destruct cx_new as [|s1 [|s2 [|s3 t]]]; try discriminate HF.
+  apply andb_prop in HF. destruct HF as [HF K2]. apply andb_prop in HF. destruct HF as [HF V1].
+  apply andb_prop in HF. destruct HF as [K1 I1].
+  apply Z.eqb_eq in K1, I1, V1, K2.
+  unfold cx_css in HE. cbn [EvL] in HE. destruct HE as [HE _]. unfold EvalOK in HE.
+  change (slope_of _) with (12, 5) in HE. cbn [fst snd] in HE.
+  rewrite K1, K2 in HE. unfold cx_k in *.
+  specialize (HE ltac:(lia) ltac:(lia) ltac:(vm_compute; reflexivity)).
+  destruct HE as [(t & Et & Ht & [C1 C2])|[C1 _]]; rewrite V1, ?I1, ?K1 in *; lia.
+Qed.
+
+Lemma cx_structural :
+  std_width cx_c /\ 1 <= c_par cx_c <= 20 /\ c_epsrec cx_c = 0 /\ 0 <= c_eps cx_c /\ c_fdouble cx_c = false /\
+  cx_data <> [] /\ sortedb cx_data = true /\ Forall (fun x => in_ktype (c_kt cx_c) x = true) cx_data /\
+  last_z cx_data < sentinel cx_c /\ zlen cx_data = 6 /\ hd 0 cx_data <= cx_k <= last_z cx_data.
+Proof.
+  split; [right; right; right; reflexivity|].
+  split; [cbn; lia|]. split; [reflexivity|]. split; [cbn; lia|]. split; [reflexivity|].
+  split; [discriminate|]. split; [vm_compute; reflexivity|].
+  split; [repeat constructor|]. split; [vm_compute; reflexivity|]. split; [reflexivity|].
+  vm_compute. split; discriminate.
+Qed.
